@@ -231,7 +231,7 @@ func runC03(o *cli.Opts, run *evid.Run) {
 	if o.Thorough() {
 		dims = append(dims, dimM{true, 8, 3}, dimM{true, 20, 1}, dimM{true, 32, 1}, dimM{false, 8, 3}, dimM{false, 20, 1}, dimM{false, 31, 1})
 	}
-	nValid := o.Pick(3, 12)
+	nValid := o.Pick(8, 30)
 	cli.ForEach(len(dims), 3, func(di int) {
 		dm := dims[di]
 		mode := map[bool]string{true: "ins", false: "del"}[dm.ins]
@@ -395,10 +395,10 @@ func c03Batch(run *evid.Run, sys *rmon.Sys, r *rand.Rand, key, mode string, b *b
 		h := rmon.Hints{rmon.NBitsID: rmon.NBitsWhen(v, 256, func(_ *big.Int, nn int) []*big.Int { return rmon.BitsOf(wrong, nn) }, &fired)}
 		solve("Nwrong-"+n, "forged/other-value", ref.HashToField(b.pack(b.idx, vals)), h, false, map[string]any{"field": n})
 		// a non-boolean digit that still recomposes to v
-		j := r.Intn(256)
+		j := r.Intn(255)
 		fired = 0
 		h = rmon.Hints{rmon.NBitsID: rmon.NBitsWhen(v, 256, func(_ *big.Int, nn int) []*big.Int {
-			return nonBoolean(v, nn, new(big.Int).Xor(v, new(big.Int).Lsh(big.NewInt(1), uint(j))), j, ref.R)
+			return nonBooleanSplit(v, nn, j, ref.R)
 		}, &fired)}
 		solve("Nnb-"+n, "forged/non-boolean-digit", good, h, false, map[string]any{"field": n, "digit": j})
 	}
@@ -420,10 +420,10 @@ func c03Batch(run *evid.Run, sys *rmon.Sys, r *rand.Rand, key, mode string, b *b
 		fired := 0
 		h := rmon.Hints{rmon.NBitsID: rmon.NBitsWhen(iv, 32, func(_ *big.Int, nn int) []*big.Int { return rmon.BitsOf(new(big.Int).SetUint64(uint64(wrong)), nn) }, &fired)}
 		solve(fmt.Sprintf("Nwrong-idx%d", i), "forged/other-index", ref.HashToField(b.pack(idx, b.vals)), h, false, map[string]any{"index": i})
-		for _, j := range []int{0, 31} {
+		for _, j := range []int{0, 30} {
 			fired = 0
 			h = rmon.Hints{rmon.NBitsID: rmon.NBitsWhen(iv, 32, func(_ *big.Int, nn int) []*big.Int {
-				return nonBoolean(iv, nn, new(big.Int).Xor(iv, new(big.Int).Lsh(big.NewInt(1), uint(j))), j, ref.R)
+				return nonBooleanSplit(iv, nn, j, ref.R)
 			}, &fired)}
 			solve(fmt.Sprintf("Nnb-idx%d-%d", i, j), "forged/non-boolean-index-digit", good, h, false, map[string]any{"index": i, "digit": j})
 		}
